@@ -336,6 +336,8 @@ pub async fn udp_scenario(seed: u64, round: u64) -> (Vec<Finding>, Counters, Vec
     let closed = free_port(); // nobody listens there: the server's SYNs get ICMP port unreachable
     let closed_addr: SocketAddr = format!("127.0.0.1:{closed}").parse().unwrap();
     let mut cfg = server_config(port, closed_addr);
+    // a second seed of the other address family: sending to it from an IPv4 socket fails at once (a failed send)
+    cfg.seed_nodes.push(format!("[::1]:{closed}"));
     cfg.chitchat_id = ChitchatId::new(format!("udp{port}"), 0, format!("127.0.0.1:{port}").parse().unwrap());
     cfg.listen_addr = cfg.chitchat_id.gossip_advertise_addr;
     cfg.gossip_interval = Duration::from_millis(50);
@@ -379,22 +381,64 @@ pub async fn udp_scenario(seed: u64, round: u64) -> (Vec<Finding>, Counters, Vec
     let mut buf = vec![0u8; 65_536];
     for attempt in 0..5 {
         let _ = client.send_to(&valid, server).await;
-        // the server also gossips with us (it learned our address from the digest): skip its SYNs
+        // the server also gossips with us (it learned our address from the digest): skip its SYNs, but every
+        // datagram it sends must be exactly one well-formed message
         for _ in 0..8 {
             match tokio::time::timeout(Duration::from_millis(1500), client.recv_from(&mut buf)).await {
                 Ok(Ok((n, _))) => {
-                    if let Ok((codec::WMsg::SynAck { .. }, _, _)) = codec::decode_msg(&buf[..n]) {
-                        answered = true;
-                        break;
+                    c.inc("udp_datagrams_from_server");
+                    match codec::decode_msg(&buf[..n]) {
+                        Ok((m, _, used)) => {
+                            if used != n {
+                                findings.push(Finding::new(&["C19", "C08"], "udp.trailing_bytes_from_server", format!("after failed sends the server emitted a datagram of {n} bytes of which only {used} form a message ({}): stale bytes of an earlier message are being sent", codec::msg_kind(&m))));
+                            }
+                            if matches!(m, codec::WMsg::SynAck { .. }) && used == n {
+                                answered = true;
+                                break;
+                            }
+                        }
+                        Err(e) => findings.push(Finding::new(&["C19", "C08"], "udp.malformed_datagram_from_server", format!("the server emitted an undecodable datagram of {n} bytes: {e}"))),
                     }
                 }
                 _ => break,
             }
         }
+        if !findings.is_empty() {
+            break;
+        }
         if answered {
             c.inc("udp_syns_answered");
             c.add("udp_attempts_needed", attempt + 1);
             break;
+        }
+    }
+    // keep talking for a while: after a failed send (the other-family seed) the next datagram the server emits
+    // must still be exactly one well-formed message, whoever it goes to; we see those that come to us
+    if findings.is_empty() {
+        let until = std::time::Instant::now() + Duration::from_millis(1200);
+        let mut k = 0;
+        while std::time::Instant::now() < until && k < 200 {
+            if k % 4 == 0 {
+                let _ = client.send_to(&valid, server).await;
+            }
+            k += 1;
+            match tokio::time::timeout(Duration::from_millis(100), client.recv_from(&mut buf)).await {
+                Ok(Ok((n, _))) => {
+                    c.inc("udp_datagrams_from_server");
+                    match codec::decode_msg(&buf[..n]) {
+                        Ok((m, _, used)) if used != n => {
+                            findings.push(Finding::new(&["C19", "C08"], "udp.trailing_bytes_from_server", format!("after failed sends the server emitted a datagram of {n} bytes of which only {used} form a message ({}): stale bytes of an earlier message are being sent", codec::msg_kind(&m))));
+                            break;
+                        }
+                        Ok(_) => {}
+                        Err(e) => {
+                            findings.push(Finding::new(&["C19", "C08"], "udp.malformed_datagram_from_server", format!("the server emitted an undecodable datagram of {n} bytes: {e}")));
+                            break;
+                        }
+                    }
+                }
+                _ => {}
+            }
         }
     }
     let terminated = tokio::time::timeout(Duration::from_millis(10), handle.termination_watcher()).await.ok();
@@ -476,6 +520,9 @@ pub fn check(args: &Args) -> Outcome {
         };
         jobs.push((s, extra));
     }
+    if args.has("--udp-only") {
+        jobs.clear();
+    }
     let res = par_run(jobs.len() as u64, args.threads, |i| {
         if deadline.expired() {
             return None;
@@ -512,6 +559,9 @@ pub fn check(args: &Args) -> Outcome {
     let rt = tokio::runtime::Builder::new_multi_thread().worker_threads(2).enable_all().build().unwrap();
     for r in 0..rounds {
         let (f, c, inc) = rt.block_on(udp_scenario(seed, r));
+        if args.verbose {
+            println!("udp round {r}: findings {:?} counters {:?} inconclusive {:?}", f.iter().map(|x| &x.kind).collect::<Vec<_>>(), c.0, inc);
+        }
         ev.evaluations += 1;
         ev.counters.merge(&c);
         ev.distinct.insert(mix3(seed, r, 0xD9));
